@@ -94,11 +94,21 @@ _EXC = {
 }
 
 
-PENDING = []        # Python exceptions raised inside callbacks (virtual arrays), innermost last
+import threading
+
+_tls = threading.local()        # Python exceptions raised inside callbacks (virtual arrays), innermost last
+
+
+def _pending():
+    try:
+        return _tls.pending
+    except AttributeError:
+        _tls.pending = []
+        return _tls.pending
 
 
 def set_pending(exc):
-    PENDING.append(exc)
+    _pending().append(exc)
 
 
 def raise_error():
@@ -106,6 +116,7 @@ def raise_error():
     msg = L.akb_error()
     msg = msg.decode("utf-8", "surrogateescape") if msg is not None else ""
     L.akb_clear_error()
+    PENDING = _pending()
     if PENDING:
         # pybind11's error_already_set: the original Python exception travels through the C++ frames
         exc = PENDING.pop()
@@ -119,6 +130,13 @@ def raise_error():
 
 def failed():
     return L.akb_error_kind() != 0
+
+
+def nullable(f, *args):
+    """call a function whose NULL result can be legitimate (a null shared_ptr): any stale error record (the
+    thread-local record is shared with the other bridge sections) is dropped first"""
+    L.akb_clear_error()
+    return ptr(f(*args))
 
 
 def ptr(p):
